@@ -27,3 +27,32 @@ Theorem C15_normalize_commutes_with_the_cycle : forall d,
              code_data_to_json (normalize d') = code_data_to_json (normalize d).
 Proof. exact normalize_portable. Qed.
 Print Assumptions C15_normalize_commutes_with_the_cycle.
+
+(* "Depends only on the data classes, not on the interpreter": a theorem about the reference graph of the
+   CURRENT source (Gen/SrcDeps.v, re-translated from /repo/code_data/*.py on every run by
+   harness/translate_deps.py; over-approximating: a method call refers to every method of that name, a class to
+   its decorators, bases and field defaults, a function-level import is a reference).  Every path of references
+   that starts at to_json_data, from_json_data or normalize stays inside the package and the interpreter-
+   independent helper modules of Model/DepGraph.v (allowed): it never reaches sys (version_info), dis, opcode,
+   platform, types, a host-dependent builtin (repr, hash, compile, ...) or eval / exec / globals. *)
+From Coq Require Import String List.
+From PCD Require Import Model.DepGraph Proofs.DepGraphProofs.
+From PCD Require Gen.SrcDeps.
+
+Theorem C15_json_and_normalize_never_consult_the_interpreter : forall e n,
+  In e PCD.Gen.SrcDeps.entry_points -> path PCD.Gen.SrcDeps.deps e n -> allowed n = true.
+Proof.
+  apply (policy_sound PCD.Gen.SrcDeps.deps PCD.Gen.SrcDeps.entry_points
+           (reach 4000 PCD.Gen.SrcDeps.deps PCD.Gen.SrcDeps.entry_points [])); vm_compute; reflexivity.
+Qed.
+Print Assumptions C15_json_and_normalize_never_consult_the_interpreter.
+
+(* non-vacuity: the entry points exist in the graph, the closure is not trivial, and the policy does reject the
+   version-dependent parts of the package (the line-table codec consults sys.version_info) *)
+Example C15_reference_graph_is_not_trivial :
+  (3 <=? length PCD.Gen.SrcDeps.entry_points)%nat = true /\
+  (30 <=? length (reach 4000 PCD.Gen.SrcDeps.deps PCD.Gen.SrcDeps.entry_points []))%nat = true /\
+  forallb (fun e => negb (Nat.eqb (length (succs PCD.Gen.SrcDeps.deps e)) 0)) PCD.Gen.SrcDeps.entry_points = true /\
+  allowed "ext:sys.version_info" = false /\ allowed "ext:builtins.repr" = false /\ allowed "ext:<dynamic>.eval" = false /\
+  forallb allowed (reach 4000 PCD.Gen.SrcDeps.deps ["pkg:__init__.CodeData.from_code"] []) = false.
+Proof. vm_compute. repeat split; reflexivity. Qed.
